@@ -218,7 +218,12 @@ int vp_case(Choice& c, Report& rep) {
     sig::generate(family, sig_seed, Fs, ch, fs, amp, x, sig_pos);
     sig_pos += fs;
     bool spiced = false;
+#ifdef FIXED_POINT
+    // the fixed-point flavour is exercised with in-range input only: C02 quantifies non-finite / absurd floats over the float encoder
+    if (fmt == 2 && c.chance(24)) { (void)c.irange(0, 5); (void)c.u32(); }
+#else
     if (fmt == 2 && c.chance(24)) { spice_float(c, rep, x); spiced = true; }
+#endif
     int exp_dur = expected_duration(Fs, fs, expert);
     HeapBuf<unsigned char> out(maxb);
     int ret;
